@@ -47,7 +47,7 @@ func runC20(c *core.Ctx) {
 			is := func(in ssa.Instruction) bool { return in == s }
 			never := func(ssa.Instruction) bool { return false }
 			okk, w, _ := condMust(c, bw, nil, is, never, []string{
-				"F:(const(0) < fld(Backoffer.maxSleep,recv))",
+				"T:(fld(Backoffer.maxSleep,recv) < const(1))",
 				"T:((fld(Backoffer.totalSleep,recv) - fld(Backoffer.excludedSleep,recv)) < fld(Backoffer.maxSleep,recv))",
 			})
 			a.check(okk, fname(bw)+" budget test", s, "sleep only when maxSleep<=0 or total-excluded < maxSleep was established", "the sleep is reachable without the budget test (total − excluded >= maxSleep not excluded): "+a.w(w))
@@ -57,7 +57,7 @@ func runC20(c *core.Ctx) {
 			a.check(okk3, fname(bw)+" cancelled context", s, "no sleep after the context was cancelled", "the sleep is reachable without the non-blocking ctx.Done() check: "+a.w(w3))
 			// the excluded cap: on the excluded-kind path the sleep needs excludedSleep < limit or < maxSleep
 			okk4, w4, _ := condMust(c, bw, nil, is, never, []string{
-				"F:(const(0) < fld(Backoffer.maxSleep,recv))",
+				"T:(fld(Backoffer.maxSleep,recv) < const(1))",
 				"F:lookup(global(retry.isSleepExcluded))*", "F:ok",
 				"T:(fld(Backoffer.excludedSleep,recv) < lookup(global(retry.isSleepExcluded)))",
 				"T:(fld(Backoffer.excludedSleep,recv) < fld(Backoffer.maxSleep,recv))",
